@@ -306,8 +306,14 @@ def wsdl_variants(seed):
         w = WsgiApplication(app)
         o = call_wsgi(w, wsdl_request())
         lazy = o.body if o.exc is None else ('EXC:%r' % o.exc).encode()
+        # the second application validates its input against the schema in
+        # half of the cases: the validation schema is built on the very
+        # Wsdl11 / XmlSchema objects the document comes from, and what is
+        # published does not depend on it
         app2 = Application(services, app.tns, name='C07App',
-                           in_protocol=Soap11(), out_protocol=Soap11())
+                           in_protocol=Soap11(validator='lxml')
+                                           if seed % 2 else Soap11(),
+                           out_protocol=Soap11())
         w2 = WsgiApplication(app2)
         w2.doc.wsdl11.build_interface_document('http://sim.invalid/')
         direct = w2.doc.wsdl11.get_interface_document()
@@ -368,6 +374,14 @@ def check_document(data, summary):
     tns = root.get('targetNamespace')
     # definitions
     types_by_ns, elements_by_ns = {}, {}
+    for imp in root.iter(q(XS, 'import')):
+        # the schemas travel inside the document: an import that sends the
+        # reader to a file is a reference to something that is not there
+        if imp.get('schemaLocation') is not None:
+            V.append(('closure|import|schemaLocation', 'xs:import of %r '
+                      'points at %r, which is not part of the document' % (
+                          imp.get('namespace'), imp.get('schemaLocation'))))
+            break
     for schema in root.iter(q(XS, 'schema')):
         sns = schema.get('targetNamespace')
         for ct in schema:
